@@ -6,9 +6,10 @@ namespace JoinModel
 
 /-- what the refinement proof needs to know about a generator context (established for `mkCtx` in Refine.lean) -/
 structure CtxOK (c : Ctx) (names : List (Option String)) : Prop where
-  sync : c.kind.isAsync = false
+  /-- the async try macros are not covered yet -/
+  asyncNotTry : c.kind.isAsync = true → c.kind.isTry = false
   noJoiner : c.joiner = none
-  lazyDefault : c.lazy = c.kind.isSpawn
+  lazyDefault : c.lazy = c.kind.threads
   transposeTry : c.kind.isTry = true → c.transpose = true
   nEq : c.n = c.chains.length
   depthsEq : c.depths = c.chains.map (·.length)
@@ -91,9 +92,10 @@ theorem genStep_shape (ok : CtxOK c names) (σ : World) (parent : Option String)
     s.defs = (c.activeIdx k).flatMap (fun b => capDefsOf b ((specCfgOf σ parent names c).acts b k) 0) ∧
     s.elems.map Elem.sem = (c.activeIdx k).map (fun b =>
       (b, c.multi k && c.lazy, c.wrapOf k b, c.varOf b, (specCfgOf σ parent names c).acts b k)) ∧
-    s.form = .tuple ∧
-    s.tbs = (if c.kind.isSpawn && decide (c.activeCount k ≥ 2) then (c.activeIdx k).map (fun b => (b, b)) else []) ∧
-    s.spawnJoin = (if c.kind.isSpawn && decide (c.activeCount k ≥ 2) then some (idxProjs c k) else none) := by
+    ((c.kind.isAsync = false → s.form = .tuple) ∧
+     (c.kind.isAsync = true → s.form = .awaitCat ∨ ∃ j, s.form = .futJoin j false)) ∧
+    s.tbs = (if c.kind.threads && decide (c.activeCount k ≥ 2) then (c.activeIdx k).map (fun b => (b, b)) else []) ∧
+    s.spawnJoin = (if c.kind.threads && decide (c.activeCount k ≥ 2) then some (idxProjs c k) else none) := by
   unfold genStep at h
   split at h
   · cases h
@@ -176,9 +178,15 @@ theorem genStep_shape (ok : CtxOK c names) (σ : World) (parent : Option String)
         rfl
       rw [h3, hsnd]
       rfl
-    · simp [ok.noJoiner, ok.sync]
-    · simp [ok.sync]
-    · simp [ok.sync]
+    · simp only [ok.noJoiner]
+      by_cases ha : c.kind.isAsync = true
+      · have ht := ok.asyncNotTry ha
+        by_cases hm : c.activeCount k > 1
+        · simp [ha, ht, hm]
+        · simp [ha, hm]
+      · simp [ha]
+    · simp [Kind.threads, Bool.and_comm]
+    · simp [Kind.threads, Bool.and_comm]
 
 end
 
